@@ -553,11 +553,26 @@ impl<S: Storage> Builder<S> {
         // end of the stream.
         let finished = Arc::new(AtomicBool::new(false));
         let finished_by_task = finished.clone();
+        #[cfg(feature = "verif")]
+        let fault_op = crate::verif::fault::register(&name);
         let handle = tokio::task::Builder::default()
             .name(&format!("{id}.{name}"))
             .spawn(
                 async move {
                     while let Some(item) = stream.next().await {
+                        // verification hook: fault injection (no-op unless armed)
+                        #[cfg(feature = "verif")]
+                        let item = match crate::verif::fault::on_item(fault_op) {
+                            Some(true) => panic!("verif: injected panic"),
+                            Some(false) => {
+                                // an executor that fails yields its error and ends its stream
+                                let _ = tx
+                                    .broadcast(Err(std::io::Error::other("verif: injected error").into()))
+                                    .await;
+                                break;
+                            }
+                            None => item,
+                        };
                         if let Ok(chunk) = &item {
                             output_row_counter.inc(chunk.cardinality() as _);
                         }
